@@ -1,15 +1,14 @@
-(* C15 - the Mechanism (Reuse.v) refines the Spec (ReuseSpec.v) at every snippet of every history outside the named
-   classes; the class is inhabited.  See ReuseProofs.v for the other theorems. *)
+(* C15 - the Mechanism (Reuse.v) refines the Spec (ReuseSpec.v) at every snippet of EVERY history (no named class is
+   left since commit 367eb72); the Mechanism of before that commit (ReuseOld.v) does not.  See ReuseProofs.v for the
+   other theorems. *)
 From Coq Require Import List Bool Arith ZArith String Lia.
-From YV Require Import Show ReplLang Reuse ReuseSpec ReuseProofs.
+From YV Require Import Show ReplLang Reuse ReuseSpec ReuseOld ReuseProofs.
 Import ListNotations.
 Set Default Timeout 120.
 
-Record Rel (k : kstate) (s : sstate) (c : carried) : Prop := mkRel {
+Record Rel (s : sstate) (c : carried) : Prop := mkRel {
   r_glob : s_globals s = c_globals c;
   r_imp : forall m, s_imported s m = match mget m (c_mods c) with Some true => true | _ => false end;
-  r_poison : forall m, mget m (c_mods c) = Some false -> k_poisoned k m = true;
-  r_conv : forall m, k_poisoned k m = true -> mget m (c_mods c) = Some false;
   r_unreg : r_missing (c_mods c) = None /\ r_syn (c_mods c) = None;
   r_fail : r_bad (c_mods c) <> Some true /\ r_nest (c_mods c) <> Some true;
   r_goodm : r_good (c_mods c) <> Some false
@@ -22,18 +21,18 @@ Ltac rel_base :=
         | (let m := fresh in let H := fresh in intros m H; destruct m; discriminate H)
         | (let H := fresh in intros H; discriminate H) ].
 
-Lemma rel_init : Rel k_init s_init init_carried.
+Lemma rel_init : Rel s_init init_carried.
 Proof. rel_base. Qed.
 
-Lemma rel_reset : forall c, Rel k_init s_init (m_reset c).
+Lemma rel_reset : forall c, Rel s_init (m_reset c).
 Proof.
   intros [he fibs cd mods ch rg gl]; unfold m_reset, m_reset_stack; destruct fibs; cbn; rel_base.
 Qed.
 
-Definition step_goal (k : kstate) (s : sstate) (c : carried) (sn : snip) : Prop :=
-  Rel (fst (scan_snippet k sn)) (fst (spec_snippet s sn)) (fst (m_snippet c sn)) /\
+Definition step_goal (s : sstate) (c : carried) (sn : snip) : Prop :=
+  Rel (fst (spec_snippet s sn)) (fst (m_snippet c sn)) /\
   settled (snd (m_snippet c sn)) /\
-  (snd (scan_snippet k sn) = None -> snd (m_snippet c sn) = snd (spec_snippet s sn)).
+  snd (m_snippet c sn) = snd (spec_snippet s sn).
 
 Ltac nf := lazy -[show_Z show_nat Z.add String.append name_error exc_msg circular_msg missing_msg gname_s fname_s cname_s
                  mod_alias mod_v range_hit range_full].
@@ -42,40 +41,37 @@ Ltac nf_in H := lazy -[show_Z show_nat Z.add String.append name_error exc_msg ci
 Ltac dv x := destruct x as [[?|?|?|?| |?]|].
 
 (* the registry, the poison set and the waiting flag are unchanged; globals changed the same way on both sides *)
-Ltac fin_same Hi Hp Hc Hu Hf Hg :=
-  split; [constructor; [reflexivity | exact Hi | exact Hp | exact Hc | exact Hu | exact Hf | exact Hg]
-         | split; [exact I | intros _; reflexivity]].
+Ltac fin_same Hi Hu Hf Hg :=
+  split; [constructor; [reflexivity | exact Hi | exact Hu | exact Hf | exact Hg]
+         | split; [exact I | reflexivity]].
 
 Section Plain.
-Variables (kp : modk -> bool) (si : modk -> bool) (he : bool) (fibs : list fiber) (cd : bool)
+Variables (si : modk -> bool) (he : bool) (fibs : list fiber) (cd : bool)
           (mods : modreg) (ch : nat) (rg : list nat).
 Variables a0 a1 a2 a3 a4 a5 a6 a7 a8 a9 a10 a11 a12 : option gval.
 Let gl := mkG a0 a1 a2 a3 a4 a5 a6 a7 a8 a9 a10 a11 a12.
-Let K := mkK kp.
 Let S0 := mkS gl si.
 Let C0 := mkC he fibs cd mods ch rg gl.
 Hypothesis Hi : forall m, si m = match mget m mods with Some true => true | _ => false end.
-Hypothesis Hp : forall m, mget m mods = Some false -> kp m = true.
-Hypothesis Hc : forall m, kp m = true -> mget m mods = Some false.
 Hypothesis Hu : r_missing mods = None /\ r_syn mods = None.
 Hypothesis Hf : r_bad mods <> Some true /\ r_nest mods <> Some true.
 Hypothesis Hg : r_good mods <> Some false.
 
-Lemma refine_var : forall g z, step_goal K S0 C0 (SnVar g z).
-Proof. intros g z; unfold step_goal, K, S0, C0, gl; destruct g; nf; fin_same Hi Hp Hc Hu Hf Hg. Qed.
+Lemma refine_var : forall g z, step_goal S0 C0 (SnVar g z).
+Proof. intros g z; unfold step_goal, S0, C0, gl; destruct g; nf; fin_same Hi Hu Hf Hg. Qed.
 
-Lemma refine_print : forall g, step_goal K S0 C0 (SnPrint g).
+Lemma refine_print : forall g, step_goal S0 C0 (SnPrint g).
 Proof.
-  intros g; unfold step_goal, K, S0, C0, gl; destruct g; [dv a0 | dv a1]; nf; fin_same Hi Hp Hc Hu Hf Hg.
+  intros g; unfold step_goal, S0, C0, gl; destruct g; [dv a0 | dv a1]; nf; fin_same Hi Hu Hf Hg.
 Qed.
 
-Ltac start := unfold step_goal, K, S0, C0, gl.
-Ltac fin := fin_same Hi Hp Hc Hu Hf Hg.
+Ltac start := unfold step_goal, S0, C0, gl.
+Ltac fin := fin_same Hi Hu Hf Hg.
 
-Lemma refine_fn : forall f g, step_goal K S0 C0 (SnFn f g).
+Lemma refine_fn : forall f g, step_goal S0 C0 (SnFn f g).
 Proof. intros f g; start; destruct f; nf; fin. Qed.
 
-Lemma refine_call : forall f, step_goal K S0 C0 (SnCall f).
+Lemma refine_call : forall f, step_goal S0 C0 (SnCall f).
 Proof.
   intros f; start; destruct f.
   - destruct a2 as [[?|g|?|?| |?]|].
@@ -86,133 +82,121 @@ Proof.
     all: nf; fin.
 Qed.
 
-Lemma refine_class : forall c z, step_goal K S0 C0 (SnClass c z).
+Lemma refine_class : forall c z, step_goal S0 C0 (SnClass c z).
 Proof. intros c z; start; destruct c; nf; fin. Qed.
 
-Lemma refine_use : forall c, step_goal K S0 C0 (SnUse c).
+Lemma refine_use : forall c, step_goal S0 C0 (SnUse c).
 Proof. intros c; start; destruct c; [dv a4 | dv a5]; nf; fin. Qed.
 
-Lemma refine_syntax : forall pre, step_goal K S0 C0 (SnSyntax pre).
+Lemma refine_syntax : forall pre, step_goal S0 C0 (SnSyntax pre).
 Proof. intros pre; start; destruct pre; nf; fin. Qed.
 
-Lemma refine_tryfin : step_goal K S0 C0 SnTryFin.
+Lemma refine_tryfin : step_goal S0 C0 SnTryFin.
 Proof. start; nf; fin. Qed.
-Lemma refine_trycatch : step_goal K S0 C0 SnTryCatch.
+Lemma refine_trycatch : step_goal S0 C0 SnTryCatch.
 Proof. start; nf; fin. Qed.
-Lemma refine_fiberok : step_goal K S0 C0 SnFiberOk.
+Lemma refine_fiberok : step_goal S0 C0 SnFiberOk.
 Proof. start; nf; fin. Qed.
-Lemma refine_captureok : step_goal K S0 C0 SnCaptureOk.
+Lemma refine_captureok : step_goal S0 C0 SnCaptureOk.
 Proof. start; nf; fin. Qed.
 
-Lemma refine_range : forall k, step_goal K S0 C0 (SnRange k).
+Lemma refine_range : forall k, step_goal S0 C0 (SnRange k).
 Proof.
   intros k; start; destruct k; unfold m_snippet, m_add_chunks, m_execute_start; cbn [compiles code_of chunks_of depth_nat];
     unfold run_fuel; cbn [run_instrs ms_st step]; unfold m_build_range; cbn [c_ranges ms_c with_chunks with_fibers with_he];
     destruct (range_hit _ rg); try destruct (range_full rg); nf; fin.
 Qed.
 
-Lemma refine_useleak : step_goal K S0 C0 SnUseLeak.
+Lemma refine_useleak : step_goal S0 C0 SnUseLeak.
 Proof. start; dv a6; nf; fin. Qed.
 
-Lemma refine_usemod : forall m, step_goal K S0 C0 (SnUseMod m).
+Lemma refine_usemod : forall m, step_goal S0 C0 (SnUseMod m).
 Proof. intros m; start; destruct m; [dv a8 | dv a9 | dv a10 | dv a11 | dv a12]; nf; fin. Qed.
 
 (* uncaught errors: the definitions completed before the failure persist on both sides, nothing else *)
-Lemma refine_throw : forall w d, step_goal K S0 C0 (SnThrow w d).
+Lemma refine_throw : forall w d, step_goal S0 C0 (SnThrow w d).
 Proof.
   intros w d; start.
   destruct d as [[[] z]|]; destruct w as [|[]| | | | | | | | | | | ]; nf; fin.
 Qed.
 
-Lemma refine_usefiber : step_goal K S0 C0 SnUseFiber.
+Lemma refine_usefiber : step_goal S0 C0 SnUseFiber.
 Proof. start; dv a7; nf; fin. Qed.
 End Plain.
 
 Section Imports.
-Variables (kp : modk -> bool) (si : modk -> bool) (he : bool) (fibs : list fiber) (cd : bool)
+Variables (si : modk -> bool) (he : bool) (fibs : list fiber) (cd : bool)
           (mg mb mn : option bool) (ch : nat) (rg : list nat).
 Variables a0 a1 a2 a3 a4 a5 a6 a7 a8 a9 a10 a11 a12 : option gval.
 Let gl := mkG a0 a1 a2 a3 a4 a5 a6 a7 a8 a9 a10 a11 a12.
 Let mods := mkR mg mb None None mn.
-Let K := mkK kp.
 Let S0 := mkS gl si.
 Let C0 := mkC he fibs cd mods ch rg gl.
 Hypothesis Hi : forall m, si m = match mget m mods with Some true => true | _ => false end.
-Hypothesis Hp : forall m, mget m mods = Some false -> kp m = true.
-Hypothesis Hc : forall m, kp m = true -> mget m mods = Some false.
 Hypothesis Hf : mb <> Some true /\ mn <> Some true.
 Hypothesis Hg : mg <> Some false.
 
-Ltac start := unfold step_goal, K, S0, C0, gl, mods.
+Ltac start := unfold step_goal, S0, C0, gl, mods.
 Ltac imp_tac := let m := fresh "m" in intros m; destruct m; nf;
   first [ reflexivity | exact (Hi MGood) | exact (Hi MThrow) | exact (Hi MMissing) | exact (Hi MSyntax) | exact (Hi MNest) ].
-Ltac poison_tac := let m := fresh "m" in let H := fresh "H" in intros m; destruct m; nf; intros H;
-  first [ discriminate H | reflexivity | assumption | exact (Hp MGood H) | exact (Hp MThrow H) | exact (Hp MNest H) ].
-Ltac conv_tac := let m := fresh "m" in let H := fresh "H" in intros m; destruct m; nf; intros H;
-  first [ reflexivity | discriminate H | exact (Hc MGood H) | exact (Hc MThrow H) | exact (Hc MMissing H) | exact (Hc MSyntax H)
-        | exact (Hc MNest H) | discriminate (Hc MGood H) | discriminate (Hc MThrow H) | discriminate (Hc MNest H) ].
 Ltac fin_rel :=
   constructor;
-  [ nf; reflexivity | imp_tac | poison_tac | conv_tac | split; reflexivity
+  [ nf; reflexivity | imp_tac | split; reflexivity
   | nf; split; first [ exact (proj1 Hf) | exact (proj2 Hf) | discriminate ]
   | nf; first [ exact Hg | discriminate ] ].
-Ltac fin_eq := split; [fin_rel | split; [exact I | intros _; reflexivity]].
-Ltac fin_cls := split; [fin_rel | split; [exact I | let Hx := fresh in intros Hx; discriminate Hx]].
+Ltac fin_eq := split; [fin_rel | split; [exact I | reflexivity]].
 
-Lemma refine_import_missing : step_goal K S0 C0 (SnImport MMissing).
+Lemma refine_import_missing : step_goal S0 C0 (SnImport MMissing).
 Proof.
   start. pose proof (Hi MMissing) as E; nf_in E. nf. rewrite E. nf. fin_eq.
 Qed.
 
-Lemma refine_import_syntax : step_goal K S0 C0 (SnImport MSyntax).
+Lemma refine_import_syntax : step_goal S0 C0 (SnImport MSyntax).
 Proof.
   start. pose proof (Hi MSyntax) as E; nf_in E. nf. rewrite E. nf. fin_eq.
 Qed.
 
-Lemma refine_import_good : step_goal K S0 C0 (SnImport MGood).
+Lemma refine_import_good : step_goal S0 C0 (SnImport MGood).
 Proof.
-  pose proof (Hi MGood) as E. revert E Hi Hp Hc Hg. unfold step_goal, K, S0, C0, gl, mods.
-  destruct mg as [[]|]; intros E Hi Hp Hc Hg; nf_in E.
+  pose proof (Hi MGood) as E. revert E Hi Hg. unfold step_goal, S0, C0, gl, mods.
+  destruct mg as [[]|]; intros E Hi Hg; nf_in E.
   - nf. rewrite E. nf. fin_eq.
   - exfalso; apply Hg; reflexivity.
   - nf. rewrite E. nf. fin_eq.
 Qed.
 
-Lemma refine_import_throw : step_goal K S0 C0 (SnImport MThrow).
+(* a module whose body failed earlier is a dead registry entry: it is replaced and its body runs again, as in the Spec *)
+Lemma refine_import_throw : step_goal S0 C0 (SnImport MThrow).
 Proof.
-  pose proof (Hi MThrow) as E. pose proof (Hp MThrow) as P. pose proof (Hc MThrow) as Q. revert E P Q Hi Hp Hc Hf.
-  unfold step_goal, K, S0, C0, gl, mods.
-  destruct mb as [[]|]; intros E P Q Hi Hp Hc Hf; nf_in E; nf_in P; nf_in Q.
+  pose proof (Hi MThrow) as E. revert E Hi Hf. unfold step_goal, S0, C0, gl, mods.
+  destruct mb as [[]|]; intros E Hi Hf; nf_in E.
   - exfalso; apply (proj1 Hf); reflexivity.
-  - (* registered by a failed import: poisoned *)
-    nf. rewrite (P eq_refl), E. nf. fin_cls.
-  - nf; rewrite E; destruct (kp MThrow) eqn:Ek; [discriminate (Q eq_refl)|]; nf; fin_eq.
+  - nf. rewrite E. nf. fin_eq.
+  - nf. rewrite E. nf. fin_eq.
 Qed.
 
-Lemma refine_import_nest : step_goal K S0 C0 (SnImport MNest).
+Lemma refine_import_nest : step_goal S0 C0 (SnImport MNest).
 Proof.
-  pose proof (Hi MNest) as E. pose proof (Hp MNest) as P. pose proof (Hp MThrow) as P'.
-  pose proof (Hc MNest) as Q. pose proof (Hc MThrow) as Q'.
-  revert E P P' Q Q' Hi Hp Hc Hf. unfold step_goal, K, S0, C0, gl, mods.
-  destruct mn as [[]|]; intros E P P' Q Q' Hi Hp Hc Hf; nf_in E; nf_in P; nf_in Q.
+  pose proof (Hi MNest) as E. revert E Hi Hf. unfold step_goal, S0, C0, gl, mods.
+  destruct mn as [[]|]; intros E Hi Hf; nf_in E.
   - exfalso; apply (proj2 Hf); reflexivity.
-  - (* nest itself is poisoned *)
-    nf. rewrite (P eq_refl), E. nf. fin_cls.
-  - (* nest is loaded; its import of bad decides *)
-    revert E P P' Q Q' Hi Hp Hc Hf. destruct mb as [[]|]; intros E P P' Q Q' Hi Hp Hc Hf; nf_in P'; nf_in Q'.
+  - revert E Hi Hf. destruct mb as [[]|]; intros E Hi Hf.
     + exfalso; apply (proj1 Hf); reflexivity.
-    + nf. rewrite (P' eq_refl), E. destruct (kp MNest) eqn:Ek1; [discriminate (Q eq_refl)|]. nf. fin_cls.
-    + nf. rewrite E. destruct (kp MNest) eqn:Ek1; [discriminate (Q eq_refl)|].
-      destruct (kp MThrow) eqn:Ek2; [discriminate (Q' eq_refl)|]. nf. fin_eq.
+    + nf. rewrite E. nf. fin_eq.
+    + nf. rewrite E. nf. fin_eq.
+  - revert E Hi Hf. destruct mb as [[]|]; intros E Hi Hf.
+    + exfalso; apply (proj1 Hf); reflexivity.
+    + nf. rewrite E. nf. fin_eq.
+    + nf. rewrite E. nf. fin_eq.
 Qed.
 End Imports.
 
 (* ---------- every snippet ---------- *)
-Theorem snippet_refines : forall k s c sn, Rel k s c -> step_goal k s c sn.
+Theorem snippet_refines : forall s c sn, Rel s c -> step_goal s c sn.
 Proof.
-  intros [kp] [sg si] [he fibs cd [mg mb mm ms mn] ch rg [a0 a1 a2 a3 a4 a5 a6 a7 a8 a9 a10 a11 a12]] sn
-         [Hgl Hi Hp Hc [Hu1 Hu2] Hf Hg].
-  cbn in Hgl, Hi, Hp, Hc, Hu1, Hu2, Hf, Hg. subst sg mm ms.
+  intros [sg si] [he fibs cd [mg mb mm ms mn] ch rg [a0 a1 a2 a3 a4 a5 a6 a7 a8 a9 a10 a11 a12]] sn
+         [Hgl Hi [Hu1 Hu2] Hf Hg].
+  cbn in Hgl, Hi, Hu1, Hu2, Hf, Hg. subst sg mm ms.
   destruct sn as [g z|g|f g|f|cl z|cl|pre|w d|  |  |  |  |k|  |  |m|m| ].
   - apply refine_var; auto.
   - apply refine_print; auto.
@@ -237,72 +221,44 @@ Proof.
     + apply refine_import_nest; auto.
   - apply refine_usemod; auto.
   - (* RESET *)
-    unfold step_goal. split; [apply rel_reset | split; [exact I | intros _; reflexivity]].
+    unfold step_goal. split; [apply rel_reset | split; [exact I | reflexivity]].
 Qed.
 
 (* ---------- every history ---------- *)
-Fixpoint agree (ks : list (option known_class)) (ms : list (obs * carried)) (ss : list obs) : Prop :=
-  match ks, ms, ss with
-  | [], [], [] => True
-  | k :: ks', (o, _) :: ms', s :: ss' => (k = None -> o = s) /\ settled o /\ agree ks' ms' ss'
-  | _, _, _ => False
-  end.
-
-Lemma history_refines : forall h k s c, Rel k s c ->
-  agree (scan_history k h) (m_history c h) (s_history s h).
+Lemma history_refines : forall h s c, Rel s c ->
+  map fst (m_history c h) = s_history s h /\ Forall (fun oc => settled (fst oc)) (m_history c h).
 Proof.
-  induction h as [|sn r IH]; intros k s c HR; cbn; [exact I|].
-  destruct (snippet_refines k s c sn HR) as [HR' [Hs He]].
-  destruct (scan_snippet k sn) as [k' cls]; destruct (spec_snippet s sn) as [s' so];
-    destruct (m_snippet c sn) as [c' mo]; cbn in *.
-  split; [exact He | split; [exact Hs | apply IH; exact HR']].
+  induction h as [|sn r IH]; intros s c HR; cbn; [split; constructor|].
+  destruct (snippet_refines s c sn HR) as [HR' [Hs He]].
+  destruct (spec_snippet s sn) as [s' so]; destruct (m_snippet c sn) as [c' mo]; cbn in *.
+  destruct (IH s' c' HR') as [I1 I2]. subst so. split; [f_equal; exact I1 | constructor; assumption].
 Qed.
 
-(* T: at every snippet of every history that is not in a named class, the code prints what the Spec prints, ends
-   the way the Spec ends and asks the module loader for the same modules; and no snippet of any history panics or
-   takes a path the source does not have (settled) *)
-Theorem failed_snippet_only_definitions : forall h,
-  agree (known_classes h) (eval_mech h) (eval_spec h).
+(* T: for EVERY history the code prints what the Spec prints at every snippet, ends the way the Spec ends and asks the
+   module loader for the same modules: a failed snippet affects later ones only through its completed definitions *)
+Theorem failed_snippet_only_definitions : forall h, map fst (eval_mech h) = eval_spec h.
 Proof. intros h; apply history_refines; exact rel_init. Qed.
 
-Lemma agree_all : forall ks ms ss, agree ks ms ss ->
-  existsb (fun o => match o with Some _ => true | None => false end) ks = false ->
-  map fst ms = ss.
-Proof.
-  induction ks as [|k ks IH]; intros [|[o c] ms] [|s ss] H Hk; cbn in *; try contradiction; try reflexivity.
-  destruct H as [He [_ Hr]]. destruct k; [discriminate Hk|]. cbn in Hk.
-  rewrite (He eq_refl). f_equal. apply IH; assumption.
-Qed.
-
-Corollary outside_known_classes_mech_is_spec : forall h,
-  in_known_class h = false -> map fst (eval_mech h) = eval_spec h.
-Proof. intros h H; eapply agree_all; [apply failed_snippet_only_definitions | exact H]. Qed.
-
-Lemma agree_settled : forall ks ms ss, agree ks ms ss -> Forall (fun oc => settled (fst oc)) ms.
-Proof.
-  induction ks as [|k ks IH]; intros [|[o c] ms] [|s ss] H; cbn in *; try contradiction; constructor.
-  - apply H.
-  - eapply IH; apply H.
-Qed.
-
-(* T: so every history leaves a clean fiber after every snippet (no condition left) *)
+(* T: and every history leaves a clean fiber after every snippet; no snippet panics or leaves the source-level path *)
 Theorem run_leaves_clean_always : forall h, Forall (fun oc => clean (snd oc)) (eval_mech h).
-Proof.
-  intros h; apply run_leaves_clean; eapply agree_settled; apply failed_snippet_only_definitions.
-Qed.
+Proof. intros h; apply run_leaves_clean; apply history_refines with (s := s_init); exact rel_init. Qed.
 
-(* the named class is inhabited: the faithful model does NOT refine the Spec there *)
-Theorem failed_import_refuted :
-  exists h, in_known_class h = true /\ map fst (eval_mech h) <> eval_spec h.
-Proof. exists [SnImport MThrow; SnImport MThrow]; split; [reflexivity | vm_compute; discriminate]. Qed.
+(* the selected variant: the boolean is regenerated from start_import_impl by the translator *)
+Theorem variant_current : forall h, map fst (mech_variant true h) = eval_spec h.
+Proof. exact failed_snippet_only_definitions. Qed.
 
-(* hypotheses are satisfiable by a non-trivial history: a failure of each family followed by the same construct *)
-Example outside_example :
-  in_known_class [SnVar I0 5%Z; SnImport MGood; SnThrow WTryFinally (Some (I1, 2%Z)); SnTryFin; SnThrow WClassDef None;
-                  SnClass I0 7%Z; SnUse I0; SnImport MThrow; SnImport MGood; SnThrow WCaptureFiber None; SnUseLeak; SnThrow WFiberWait None; SnUseFiber;
-                  SnReset; SnImport MThrow] = false.
-Proof. reflexivity. Qed.
+(* the Mechanism of before 367eb72 (every registered, not yet imported module answers "Circular dependency") does NOT
+   refine the Spec: the repaired defect failed_import_poisons_module *)
+Theorem failed_import_refuted_old : exists h, map fst (mech_variant false h) <> eval_spec h.
+Proof. exists [SnImport MThrow; SnImport MThrow]; vm_compute; discriminate. Qed.
+
+Example refines_example :
+  map fst (eval_mech [SnVar I0 5%Z; SnImport MGood; SnThrow WTryFinally (Some (I1, 2%Z)); SnTryFin; SnThrow WClassDef None;
+                      SnClass I0 7%Z; SnUse I0; SnImport MThrow; SnImport MThrow; SnImport MNest; SnImport MGood;
+                      SnThrow WCaptureFiber None; SnUseLeak; SnThrow WFiberWait None; SnUseFiber; SnReset; SnImport MNest])
+  <> [].
+Proof. vm_compute; discriminate. Qed.
 
 Print Assumptions failed_snippet_only_definitions.
 Print Assumptions run_leaves_clean_always.
-Print Assumptions failed_import_refuted.
+Print Assumptions failed_import_refuted_old.
